@@ -2,6 +2,7 @@ package main
 
 import (
 	"fmt"
+	"golang.org/x/tools/go/ssa"
 	"os"
 	"sort"
 	"strings"
@@ -75,5 +76,20 @@ func init() {
 				}
 			}
 		}
+	}
+}
+
+func init() {
+	debugFuncs["calls"] = func(p *Prog) {
+		fn := p.Func("", "", os.Getenv("DLINT_FUNC"))
+		if fn == nil {
+			fmt.Println("no func")
+			return
+		}
+		Instrs(fn, func(in ssa.Instruction) {
+			if c, ok := in.(*ssa.Call); ok {
+				fmt.Printf("%T %v name=%q\n", c.Call.Value, c.Call.Value, CalleeName(&c.Call))
+			}
+		})
 	}
 }
